@@ -298,9 +298,13 @@ CHECKS = {
                 "the small scope `all lists of <= 3 rules with patterns of length <= 2 over {*, a, b, (a|b)}` x all 85 feature lists of "
                 "length <= 3 over {a, b, c, *}; the scope is partitioned over (shard, case) so that one run enumerates it completely "
                 "(8420 rule lists x 85 lists); every rule has a distinguishable output; the other two sections hold rules that must not "
-                "interfere. Odd cases: random lists of <= 12 rules, patterns <= 5, outputs mixing text and $n. Distinct = hash of the rule text.",
+                "interfere. Other cases: random lists of <= 12 rules, patterns <= 5, outputs mixing text and $n. Thorough adds the medium scope: "
+                "all 599 844 lists of <= 3 rules with patterns of length <= 3 x all 341 feature lists of length <= 4 (~2*10^8 evaluations). "
+                "Distinct = hash of the rule text.",
         "required_buckets": ["small_scope_slice_enumerated", "random_rule_lists", "some_rule_matched", "no_rule_matched",
                              "later_rule_shares_first_pattern_with_earlier_rule_across_an_intervening_rule"],
+        "required_buckets_thorough": ["medium_scope_slice_enumerated"],
+        "exhaustive_total": ["rule_lists_in_small_scope", 8420],
         "exhaustive_bucket": "small_scope_slice_enumerated",
         "exhaustive_scope": "rule lists of <= 3 rules with patterns of length <= 2 over {*, a, b, (a|b)} x feature lists of length <= 3 over {a,b,c,*} (complete when total rule_lists_in_small_scope = 8420)",
         "assumptions": ["rewrite outputs never use $0 (the rule syntax is 1-origin)"],
